@@ -545,3 +545,102 @@ func CaseCoq(id uint64, h History, rs []Resp, a *app.ShutterApp) string {
 	}
 	return vh.CApp("mkAppCase", vh.CN(id), GenesisCoq(h.Genesis), vh.CList(cs), vh.CList(os), ProjCoq(a))
 }
+
+// StateString renders the complete application state deterministically (maps sorted); the
+// blocks-seen entry and the nonces of `hide` (if non-nil) are left out. Used by the oracles.
+func StateString(a *app.ShutterApp, hide []byte) string {
+	var sb strings.Builder
+	hid := func(b []byte) bool { return hide != nil && bytes.Equal(b, hide) }
+	for _, c := range a.Configs {
+		fmt.Fprintf(&sb, "cfg %d %d %d %v %v %x\n", c.KeyperConfigIndex, c.ActivationBlockNumber, c.Threshold, c.Started, c.ValidatorsUpdated, addrBytes(c.Keypers))
+	}
+	fmt.Fprintf(&sb, "eon %d height %d dev %v chain %s\n", a.EONCounter, a.LastBlockHeight, a.DevMode, a.ChainID)
+	lines := []string{}
+	for k, v := range a.Identities {
+		lines = append(lines, fmt.Sprintf("id %x %x", k.Bytes(), v.Ed25519pubkey))
+	}
+	for k, v := range a.BlocksSeen {
+		if !hid(k.Bytes()) {
+			lines = append(lines, fmt.Sprintf("seen %x %d", k.Bytes(), v))
+		}
+	}
+	for k, v := range a.Validators {
+		lines = append(lines, fmt.Sprintf("val %x %d", k.Ed25519pubkey, v))
+	}
+	for k, v := range a.ConfigVoting.Votes {
+		lines = append(lines, fmt.Sprintf("cvote %x %d", k.Bytes(), v))
+	}
+	for i, c := range a.ConfigVoting.Candidates {
+		lines = append(lines, fmt.Sprintf("ccand %d %d %d %d %x", i, c.KeyperConfigIndex, c.ActivationBlockNumber, c.Threshold, addrBytes(c.Keypers)))
+	}
+	for e, d := range a.DKGMap {
+		lines = append(lines, fmt.Sprintf("dkg %d cfg %d cands %v", e, d.Config.KeyperConfigIndex, d.SuccessVoting.Candidates))
+		for k, v := range d.SuccessVoting.Votes {
+			lines = append(lines, fmt.Sprintf("dkg %d vote %x %d", e, k.Bytes(), v))
+		}
+		for k := range d.PolyEvalsSeen {
+			lines = append(lines, fmt.Sprintf("dkg %d eval %x %x", e, k.Sender.Bytes(), k.Receiver.Bytes()))
+		}
+		for k := range d.PolyCommitmentsSeen {
+			lines = append(lines, fmt.Sprintf("dkg %d commit %x", e, k.Bytes()))
+		}
+		for k := range d.AccusationsSeen {
+			lines = append(lines, fmt.Sprintf("dkg %d acc %x", e, k.Bytes()))
+		}
+		for k := range d.ApologiesSeen {
+			lines = append(lines, fmt.Sprintf("dkg %d apo %x", e, k.Bytes()))
+		}
+	}
+	for k, m := range a.NonceTracker.RandomNonces {
+		if hid(k.Bytes()) {
+			continue
+		}
+		for n := range m {
+			lines = append(lines, fmt.Sprintf("nonce %x %d", k.Bytes(), n))
+		}
+	}
+	for k := range a.CheckTxState.Members {
+		lines = append(lines, fmt.Sprintf("member %x", k.Bytes()))
+	}
+	for k, v := range a.CheckTxState.TxCounts {
+		lines = append(lines, fmt.Sprintf("chkcount %x %d", k.Bytes(), v))
+	}
+	if a.ForkHeights != nil {
+		lines = append(lines, fmt.Sprintf("fork %v %d legacy-nil=%v", a.ForkHeights.CheckInUpdateNew.Enabled, a.ForkHeights.CheckInUpdateNew.Height, a.ForkHeights.CheckInUpdate == nil))
+	}
+	sort.Strings(lines)
+	sb.WriteString(strings.Join(lines, "\n"))
+	return sb.String()
+}
+
+// ChainOf returns the chain id carried by a decodable raw transaction.
+func ChainOf(raw []byte) (string, bool) {
+	signed, err := base64.RawURLEncoding.DecodeString(string(raw))
+	if err != nil {
+		return "", false
+	}
+	if _, err := shmsg.GetSigner(signed); err != nil {
+		return "", false
+	}
+	msg, err := shmsg.GetMessage(signed)
+	if err != nil {
+		return "", false
+	}
+	return string(msg.ChainId), true
+}
+
+// MessageOf returns the payload message of a decodable raw transaction.
+func MessageOf(raw []byte) (*shmsg.Message, bool) {
+	signed, err := base64.RawURLEncoding.DecodeString(string(raw))
+	if err != nil {
+		return nil, false
+	}
+	if _, err := shmsg.GetSigner(signed); err != nil {
+		return nil, false
+	}
+	msg, err := shmsg.GetMessage(signed)
+	if err != nil || msg.Msg == nil {
+		return nil, false
+	}
+	return msg.Msg, true
+}
